@@ -14,10 +14,12 @@ CONSTANTS
   ShareEffect = "readonly"
   RADS = {8}
   GMS = {64,128}
+  TableEnds = "nearest"
   Slicing = "layer"
   Export = TRUE
 INVARIANT MixAlignedWithLayers
 INVARIANT OneEntryPerLayer
+INVARIANT TabulatedTemperatureAligned
 INVARIANT FitsInv
 CONSTRAINT Emit
 CHECK_DEADLOCK FALSE
